@@ -10,7 +10,9 @@
 #include <mesh.h>
 #include <MeshIO.h>
 #include <geometry.h>
+#define private public
 #include <sensors.h>
+#undef private
 #include "wire.h"
 #include <sys/resource.h>
 #include <sys/wait.h>
@@ -273,6 +275,13 @@ static Wire c07(Reader& r) {
         }
         Mat_Close(mat);
         return in_child([&]{ Wire out; loadOutcome(out,kind,p.c_str()); return out; },10); }
+    case 15: {  // info: fmt id -> what maths::info says of file f<id>.<sfx>: [status, storage, dimension, nlin, ncol]
+        int fmt=(int)r.n(); ll id=r.z();
+        std::string p = fname(("f"+std::to_string(id)).c_str(),fmt);
+        Wire out; LinOpInfo li; bool ok=false;
+        ll st = guarded_code([&]{ li = maths::info(p.c_str()); ok=true; });
+        out.push_back(st); if (ok) { out.push_back((ll)li.storageType()); out.push_back(li.dimension()); out.push_back(li.nlin()); out.push_back(li.ncol()); }
+        return out; }
     case 10: {  // mesh: mfmt nbytes bytes... -> mesh load outcome, in a child process
         int mf=(int)r.n(); std::string p = std::string("omfile_m.")+MSUFFIX[mf]; spit(p.c_str(),r);
         return in_child([&]{ return meshOutcome(p.c_str()); }); }
@@ -285,7 +294,10 @@ static Wire c07(Reader& r) {
                 switch (which) {
                 case 0: { Geometry g; g.load(std::string("m.geom"),std::string("Head1.cond")); out.push_back(g.meshes().size()); out.push_back(g.domains().size()); break; }
                 case 1: { Geometry g; g.load(std::string("Head1.geom"),std::string("m.cond")); out.push_back(g.domains().size()); break; }
-                case 2: { Sensors sn("m.squids"); out.push_back(sn.getNumberOfPositions()); out.push_back(sn.getNumberOfSensors()); break; }
+                case 2: { Sensors sn("m.squids"); size_t np=sn.getNumberOfPositions(); out.push_back(np); out.push_back(sn.getNumberOfSensors());
+                          // per position: the sensor it belongs to and its three coordinates
+                          for (size_t i=0;i<np && i<2000;++i) { out.push_back(sn.m_pointSensorIdx[i]); for (unsigned c=0;c<3;++c) out.push_back(d2w(sn.getPositions()(i,c))); }
+                          break; }
                 case 3: { Matrix d("m.dip"); out.push_back(d.nlin()); out.push_back(d.ncol()); break; }
                 }
             });
